@@ -18,7 +18,7 @@ ASSUMPTIONS = [
     "not judged: executions whose reference values reach 2^31-1 (C20), sources needing >= 1024 rewrites, duplicate labels/parameters",
 ]
 
-VARIANTS = ["canonical", "layout", "files", "libmacros", "libmacros-layout", "rndmacros", "boundary"]
+VARIANTS = ["canonical", "layout", "files", "libmacros", "libmacros-layout", "rndmacros", "boundary", "nestedcalls"]
 PER_CHUNK = 60
 
 
@@ -37,6 +37,8 @@ def make_source(r, variant):
         return macrosets.library_program(r, layout=(variant == "libmacros-layout"))
     if variant == "rndmacros":
         return macrosets.random_macro_program(r)
+    if variant == "nestedcalls":
+        return nested_calls_source(r)
     g = programs.Gen(r, o)
     p = g.program()
     kw = programs.Speller(r if r.random() < 0.5 else None)
@@ -46,11 +48,53 @@ def make_source(r, variant):
         return {"main": layouts.random_layout(toks, r)}, "main", []
     if variant == "files":
         if r.random() < 0.5:
-            f, m = layouts.split_lines(lines, r)
+            f, m = layouts.split_lines(lines, r, repeat=r.random() < 0.4)
         else:
             f, m = layouts.split_tokens([t for l in lines for t in l], r)
         return f, m, []
     return {"main": layouts.canonical(lines)}, "main", []
+
+
+def nested_calls_source(r):
+    """routines that start with IF / WHILE (their lowest registers are temporaries) and calls whose arguments are
+    calls again, in every argument position"""
+    lines = []
+    nd = r.randint(2, 3)
+    ar = []
+    for i in range(nd):
+        a = r.randint(1, 3)
+        ar.append(a)
+        ps = ["p%d" % j for j in range(a)]
+        lines.append("PROGRAM f%d IN %s DO" % (i, " , ".join(ps)))
+        body = []
+        if r.random() < 0.6:
+            body.append(r.choice(["IF %s = 99 THEN GOTO e%d ;" % (ps[0], i), "WHILE t != 0 DO\nt := t - 1\nEND ;"]))
+        body.append("x0 := %s + %d ;" % (ps[-1], r.randint(0, 3)))
+        if i > 0 and r.random() < 0.7:
+            body.append("x0 := " + call(r, i - 1, ar, ps + ["x0"], 1) + " ;")
+        body.append("e%d : x0 := x0 + %s" % (i, r.choice(["1", "2"])) if False else "e%d : x0 := x0 + 1" % i)
+        lines += "\n".join(body).split("\n")
+        lines.append("END")
+    vars_ = ["x", "y", "z"]
+    first = r.choice(["IF x = 5 THEN GOTO fin ;", "WHILE y != 0 DO\ny := y - 1\nEND ;", "x := 2 ;"])
+    lines += first.split("\n")
+    for k in range(r.randint(2, 5)):
+        lines.append("%s := %s ;" % (r.choice(vars_), call(r, r.randrange(nd), ar, vars_, 0)))
+    lines.append("fin : z := z + 1")
+    return {"main": "\n".join(lines)}, "main", ["nestedcalls"]
+
+
+def call(r, i, ar, vars_, depth):
+    args = []
+    for _ in range(ar[i]):
+        q = r.random()
+        if q < 0.45 and depth < 2:
+            args.append(call(r, r.randrange(i + 1) if depth else r.randrange(len(ar)) if False else r.randrange(i + 1), ar, vars_, depth + 1))
+        elif q < 0.75:
+            args.append(r.choice(vars_))
+        else:
+            args.append(str(r.randint(0, 4)))
+    return "RUN f%d WITH %s END" % (i, " , ".join(args))
 
 
 def prepare(spec):
